@@ -1971,6 +1971,9 @@ class Backend:
                 else:
                     outdir = os.path.join(incroot, subdir)
                     outdir_name = os.path.join('{includedir}', subdir)
+            elif h.get_install_subdir():
+                # install_dir given: child directories kept by preserve_path still apply
+                outdir = outdir_name = os.path.join(outdir, h.get_install_subdir())
 
             for f in h.get_sources():
                 abspath = f.absolute_path(srcdir, builddir)
